@@ -79,6 +79,7 @@ func parseText(src []byte, lineMode bool) (res parseRes) {
 
 // printModes: normal, compact, all-parens (compact).
 func printNode(n ast.Node, compact, allParens bool) (out string, pan string) {
+	defer func() { observe("print", out, pan) }()
 	defer func() {
 		if r := recover(); r != nil {
 			pan = panicClass(r, debug.Stack())
